@@ -38,7 +38,7 @@ RFC3339 = re.compile(r"^\d{4}-\d{2}-\d{2}T\d{2}:\d{2}:\d{2}(\.\d+)?Z$")
 
 @st.composite
 def c07_case(draw):
-    case = draw(gen.case(max_nodes=6, rare=False))
+    case = draw(gen.case(max_nodes=6, rare=False, rich_sweeps="numpy"))
     if case["data"]["t"] == "None":
         case["data"] = dict(M.NODATA)
     case["detail"] = draw(st.sampled_from(["hash", "repr", "context", "all", "hash,repr", "hash,context", "repr,context"]))
